@@ -24,6 +24,14 @@ CLAIMED = {
             "every root of the stated grid families is compared with a union-find/cycle-rank reference and re-presented by every generator (supercell, shear, rigid motion, permutation, lattice-vector shifts); the implementation must return the reference value in every reached state",
             "bounded alphabet (<=4 atoms per root, listed cells, 2 radii levels + 3 presets, 3 thresholds); roots within 1e-6 of a bond threshold and roots with GF(2) rank != integer rank are skipped and counted",
             "DESIGN.md §4 C09"),
+    "C14": ("complete enumeration of the three finite tables against spglib's Hall-symbol database",
+            "all 230 info rows, all 1731 Wyckoff positions (expressions, matrices, constants, variables, orbit closure, spglib letter of a probe crystal) and all tabulated normalizers (closure, metric, handedness, permutation) are enumerated; nothing is sampled",
+            "International Tables are represented by spglib's Hall database (first Hall number per group) and spglib's letter assignment; point identification by smallest containing tabulated position",
+            "DESIGN.md §4 C14"),
+    "C16": ("exhaustive enumeration of a finite input alphabet on the real C++ core vs brute-force image enumeration",
+            "every (cell incl. degenerate, pbc mask, 1-3 atoms, extension x cutoff in both orders) builds the real extended system / cell list, which is compared row by row and query by query (grid of query points) with a brute-force image set; get_matches/get_matches_simple compared on the same points",
+            "atoms inside the cell; images beyond the extension are optional; matching judged only where the nearest image is one the cell list must contain; ext.cpp bindings not compiled (py::array_t stand-in)",
+            "DESIGN.md §4 C16"),
 }
 NA_REASON = "check not built yet in this round; see DESIGN.md §7 order of work"
 
